@@ -20,19 +20,29 @@ A_SSE = A_ENGINE + [
     "schemes not yet under contract for this property are covered only by the bounded stand-in (real code, real crypto, boundary grid)",
 ]
 
+PARTIAL = {
+    "C01": "proved for all inputs: CJJ14.PiBas (Enc |- Repr, Repr |- Search == DB[w], composed client lemma) and the shared toolkit callees; bounded stand-in only: the other eight schemes",
+    "C02": "proved for all inputs: CJJ14.PiBas (absent keyword => empty result, no exception); bounded stand-in only: the other eight schemes",
+    "C03": "proved for all inputs: CJJ14.PiBas key/token/EDB/result round trips and config parsing; bounded stand-in only: the other eight schemes and the server-side composition",
+    "C05": "proved for all inputs: CJJ14.PiBas |D| == N and the table builder's size; bounded stand-in only: the other eight schemes and value-length uniformity",
+    "C06": "proved for all inputs: the label-table builder of CJJ14.PiBas stores labels in strictly ascending order (modulo B3); bounded stand-in only: the other builders and array placement",
+    "C07": "proved for all inputs: CJJ14.PiBas _Enc/_Trap/_Search mutate nothing reachable from their arguments (frame obligations); bounded stand-in only: the other eight schemes and the history claim",
+    "C08": "proved for all inputs: CJJ14.PiBas _parse_config exact refusal conditions; bounded stand-in only: the configuration grid of the property over all nine schemes",
+}
+
 PROPS = {
     "C17": dict(modules=["toolkit_bytes"], assumptions=A_ENGINE + [
         "B1: int.to_bytes / int.from_bytes (big endian) are the functions i2b / b2i; OverflowError iff x<0 or x>=256**w",
         "B2: bytes.fromhex / bytes.hex / str.encode / bytes.decode are abstract (uninterpreted) mutually inverse maps",
     ], bounded=[]),
     "C18": dict(modules=["bits"], assumptions=A_ENGINE, bounded=[]),
-    "C01": dict(modules=["pibas", "sse_bounded"], assumptions=A_SSE, bounded=[], runtime_checks=[["sse_bounded", "rt_c01_c02"]]),
-    "C02": dict(modules=["pibas", "sse_bounded"], assumptions=A_SSE, bounded=[], runtime_checks=[["sse_bounded", "rt_c01_c02"]]),
-    "C03": dict(modules=["pibas", "sse_bounded"], assumptions=A_SSE, bounded=[], runtime_checks=[["sse_bounded", "rt_c03"]]),
-    "C05": dict(modules=["pibas", "sse_bounded"], assumptions=A_SSE, bounded=[], runtime_checks=[["sse_bounded", "rt_c05"]]),
-    "C06": dict(modules=["pibas", "sse_bounded"], assumptions=A_SSE, bounded=[], runtime_checks=[["sse_bounded", "rt_c06"]]),
-    "C07": dict(modules=["pibas", "sse_bounded"], assumptions=A_SSE, bounded=[], runtime_checks=[["sse_bounded", "rt_c07"]]),
-    "C08": dict(modules=["pibas", "sse_bounded"], assumptions=A_SSE, bounded=[], runtime_checks=[["sse_bounded", "rt_c08"]]),
+    "C01": dict(modules=["pibas", "sse_bounded"], assumptions=A_SSE, bounded=[], partial=PARTIAL["C01"], runtime_checks=[["sse_bounded", "rt_c01_c02"]]),
+    "C02": dict(modules=["pibas", "sse_bounded"], assumptions=A_SSE, bounded=[], partial=PARTIAL["C02"], runtime_checks=[["sse_bounded", "rt_c01_c02"]]),
+    "C03": dict(modules=["pibas", "sse_bounded"], assumptions=A_SSE, bounded=[], partial=PARTIAL["C03"], runtime_checks=[["sse_bounded", "rt_c03"]]),
+    "C05": dict(modules=["pibas", "sse_bounded"], assumptions=A_SSE, bounded=[], partial=PARTIAL["C05"], runtime_checks=[["sse_bounded", "rt_c05"]]),
+    "C06": dict(modules=["pibas", "sse_bounded"], assumptions=A_SSE, bounded=[], partial=PARTIAL["C06"], runtime_checks=[["sse_bounded", "rt_c06"]]),
+    "C07": dict(modules=["pibas", "sse_bounded"], assumptions=A_SSE, bounded=[], partial=PARTIAL["C07"], runtime_checks=[["sse_bounded", "rt_c07"]]),
+    "C08": dict(modules=["pibas", "sse_bounded"], assumptions=A_SSE, bounded=[], partial=PARTIAL["C08"], runtime_checks=[["sse_bounded", "rt_c08"]]),
     "C14": dict(modules=["crypto"], assumptions=A_ENGINE + [
         "X1: cryptography's PKCS7 padder/unpadder: update()+finalize() == pkcs7(m) / unpad7(d), invalid padding raises ValueError",
         "X2: cryptography's AES-CBC: encryptor/decryptor are mutually inverse, length preserving on whole blocks; AES(key) accepts 16/24/32-byte keys; CBC IV has 16 bytes",
